@@ -1,7 +1,7 @@
 (* The p-value tables of the source, as functions of the quantities the source gives them, and their relation to
    the models.  harness/translate/tables.py re-derives the tables from /repo's current source text on every run
    (Generated/Cxx_G3_tables.v) and proves them equal to these. *)
-From PV Require Import Lib.Base Model.Prng Model.Core Model.Stratified Model.Pvalues.
+From PV Require Import Lib.Base Model.Prng Model.Core Model.Stratified Model.Pvalues Model.ConfInt.
 From Coq Require Import Lqa.
 Open Scope Q_scope.
 
@@ -122,3 +122,15 @@ Ltac cond_tac :=
          | |- context [Nat.ltb ?a ?b] => destruct (Nat.ltb a b)
          end;
   cbn; try reflexivity; exfalso; lra.
+
+(* ---- the integer bisections of hypergeom_conf_interval (obligations G8): one loop iteration as a function ---- *)
+Definition bisect_min_step (ok : nat -> bool) (lo hi : nat) : nat * nat :=
+  let mid := Nat.div2 (lo + hi)%nat in if ok mid then (lo, mid) else (S mid, hi).
+Definition bisect_max_step (ok : nat -> bool) (lo hi : nat) : nat * nat :=
+  let mid := Nat.div2 (lo + hi + 1)%nat in if ok mid then (mid, hi) else (lo, (mid - 1)%nat).
+Lemma bisect_min_unfold ok lo hi f :
+  bisect_min ok lo hi (S f) = if Nat.ltb lo hi then bisect_min ok (fst (bisect_min_step ok lo hi)) (snd (bisect_min_step ok lo hi)) f else lo.
+Proof. cbn [bisect_min]. unfold bisect_min_step. destruct (Nat.ltb lo hi); [|reflexivity]. cbv zeta. destruct (ok _); reflexivity. Qed.
+Lemma bisect_max_unfold ok lo hi f :
+  bisect_max ok lo hi (S f) = if Nat.ltb lo hi then bisect_max ok (fst (bisect_max_step ok lo hi)) (snd (bisect_max_step ok lo hi)) f else lo.
+Proof. cbn [bisect_max]. unfold bisect_max_step. destruct (Nat.ltb lo hi); [|reflexivity]. cbv zeta. destruct (ok _); reflexivity. Qed.
